@@ -217,6 +217,10 @@ func ruleC07(c *Ctx, r *Report) {
 		}
 		return "", false
 	}
+	// ---- R5: "at most one well-formed output line": keys and string leaves are written by
+	// encoding/json alone - a hand-written quoting shortcut lets a control character or a
+	// backslash through and the line is no longer JSON (a raw newline even splits it in two)
+	c03Serialiser(c, r, p, "C07-R5")
 	r.Floor("C07-R1", 20, "panic obligations on the per-line path (about 40 today)")
 	nonEmptyCache := map[*ssa.Parameter]int{}
 	for _, f := range fns {
@@ -235,6 +239,11 @@ func ruleC07(c *Ctx, r *Report) {
 				switch x := in.(type) {
 				case *ssa.TypeAssert:
 					if x.CommaOk {
+						// `v, _ := x.(*T)` / `v, ok := x.(*T)` used without the test: v is nil when the
+						// input has another kind, and a method call or field access through it panics
+						if _, isPtr := x.AssertedType.Underlying().(*types.Pointer); isPtr {
+							c07NilAssertUses(c, r, f, x)
+						}
 						continue
 					}
 					construct := fmt.Sprintf("%s:assert(%s)", f.Name(), typeName(x.AssertedType))
@@ -617,4 +626,100 @@ func nonEmptyAt(b *ssa.BasicBlock, v ssa.Value) bool {
 		}
 	}
 	return impliesLess(linExpr{ok: true}, v, 0, ltFacts(fs))
+}
+
+
+// c07NilAssertUses: every dereferencing use of the pointer delivered by a comma-ok assertion
+// (receiver of a method call, field access, load) lies under `ok` being true or the pointer
+// being non-nil.
+func c07NilAssertUses(c *Ctx, r *Report, f *ssa.Function, ta *ssa.TypeAssert) {
+	var val, okv ssa.Value
+	if ta.Referrers() == nil {
+		return
+	}
+	for _, u := range *ta.Referrers() {
+		if ex, isEx := u.(*ssa.Extract); isEx {
+			if ex.Index == 0 {
+				val = ex
+			} else {
+				okv = ex
+			}
+		}
+	}
+	if val == nil || val.Referrers() == nil {
+		return
+	}
+	n := 0
+	var visit func(v ssa.Value, depth int)
+	seen := map[ssa.Value]bool{}
+	visit = func(v ssa.Value, depth int) {
+		if depth > 4 || seen[v] || v.Referrers() == nil {
+			return
+		}
+		seen[v] = true
+		for _, u := range *v.Referrers() {
+			deref := false
+			switch x := u.(type) {
+			case *ssa.Phi:
+				// the pointer travels on only along edges where the assertion was not tested
+				follow := false
+				for i, e := range x.Edges {
+					if e != v || i >= len(x.Block().Preds) {
+						continue
+					}
+					pred := x.Block().Preds[i]
+					fs := allFacts(pred)
+					if ifi, isIf := pred.Instrs[len(pred.Instrs)-1].(*ssa.If); isIf && len(pred.Succs) == 2 && pred.Succs[0] != pred.Succs[1] {
+						fs = append(fs, expandFacts([]Fact{{ifi.Cond, pred.Succs[0] == x.Block(), ifi}})...)
+					}
+					tested := false
+					for _, fc := range fs {
+						if okv != nil && fc.Cond == okv && fc.Pol {
+							tested = true
+						}
+						if y, neq, isNil := nilCompare(fc.Cond); isNil && (y == v || y == val) && neq == fc.Pol {
+							tested = true
+						}
+					}
+					if !tested {
+						follow = true
+					}
+				}
+				if follow {
+					visit(x, depth+1)
+				}
+				continue
+			case *ssa.Call:
+				if x.Call.IsInvoke() {
+					continue
+				}
+				if callee := x.Call.StaticCallee(); callee != nil && callee.Signature.Recv() != nil && len(x.Call.Args) > 0 && x.Call.Args[0] == v {
+					deref = true // a method of *T: the library's methods read through the receiver
+				}
+			case *ssa.FieldAddr:
+				deref = x.X == v
+			case *ssa.UnOp:
+				deref = x.Op == token.MUL && x.X == v
+			}
+			if !deref {
+				continue
+			}
+			n++
+			guarded := false
+			for _, fc := range allFacts(u.Block()) {
+				if okv != nil && fc.Cond == okv && fc.Pol {
+					guarded = true
+				}
+				if x, neq, isNil := nilCompare(fc.Cond); isNil && (x == v || x == val) && neq == fc.Pol {
+					guarded = true
+				}
+			}
+			construct := fmt.Sprintf("%s:nil-after-assert(%s)", f.Name(), typeName(ta.AssertedType))
+			r.Check(guarded, "C07-R1", construct, c.InstrPos(u),
+				"the asserted pointer is used only where the assertion succeeded",
+				"the pointer delivered by a comma-ok assertion is dereferenced without the assertion having been tested: for an input of another kind it is nil and the run panics (the rest of the log is lost)")
+		}
+	}
+	visit(val, 0)
+	_ = n
 }
